@@ -205,7 +205,16 @@ Fixpoint gcanon (v : gval) : gval :=
   | _ => v
   end.
 
-Fixpoint gde (fuel : nat) (st : dst) {struct fuel} : res cerr (gval * dst) :=
+(* the same read with the window checked first: the repair proposed for StructureDeserializer (see docs/C05.md) *)
+Definition read_last_checked (st : dst) (a b w : N) : res cerr N :=
+  let n := b - a in
+  if n =? 0 then Ok 0
+  else if n <? w then Err EBounds
+  else Ok (le_val (takeN w (from_idx st (b - w)))).
+
+(* [rl] is the reader used for the framing offsets of a tuple's members: [read_last] in the code as it is *)
+Fixpoint gde_gen (rl : dst -> N -> N -> N -> res cerr N) (fuel : nat) (st : dst) {struct fuel} : res cerr (gval * dst) :=
+  let gde := gde_gen rl in
   match fuel with
   | O => Err EFuel
   | S f =>
@@ -348,7 +357,7 @@ Fixpoint gde (fuel : nat) (st : dst) {struct fuel} : res cerr (gval * dst) :=
                       else if last then Ok (end_, end_, offsets_len)
                       else
                         if (end_ <? start) || (r_len st <? end_) then Err EBounds else     (* subslice(bytes, start..end) *)
-                        let* o := read_last st start end_ w in
+                        let* o := rl st start end_ w in
                         if end_ <? w then Err EBounds else
                         Ok (o + start, end_ - w, offsets_len + w) in
                   let* sub := gsub st (r_pos st) element_end (r_pos st) g (r_dep st) in
@@ -379,6 +388,9 @@ Fixpoint gde (fuel : nat) (st : dst) {struct fuel} : res cerr (gval * dst) :=
                    end
       end
   end.
+
+Definition gde : nat -> dst -> res cerr (gval * dst) := gde_gen read_last.
+Definition gde_repaired : nat -> dst -> res cerr (gval * dst) := gde_gen read_last_checked.
 
 Definition gde_fuel : nat := 70%nat.
 
